@@ -277,6 +277,38 @@ func ruleC15Closure(c *Ctx) {
 				}
 			case *ssa.Const:
 				// nil
+			case *ssa.Call:
+				// the case asks the value itself (`case resp2Scalar: value.data = v.toResp2()`): what every method that can be
+				// called there returns
+				cals := c.Callees(v)
+				if len(cals) == 0 {
+					bad = append(bad, "the result of a call that cannot be resolved")
+				}
+				for _, g := range cals {
+					if !c.InPkg(g) || g.Blocks == nil {
+						bad = append(bad, "the result of "+fnName(g))
+						continue
+					}
+					for _, gb := range g.Blocks {
+						ret, isRet := gb.Instrs[len(gb.Instrs)-1].(*ssa.Return)
+						if !isRet || len(ret.Results) != 1 {
+							continue
+						}
+						for _, leaf := range phiLeaves(ret.Results[0], map[ssa.Value]bool{}) {
+							if isNilConst(leaf) {
+								continue
+							}
+							mi, isMI := leaf.(*ssa.MakeInterface)
+							if !isMI {
+								bad = append(bad, "a value "+fnName(g)+" passes on")
+								continue
+							}
+							if n, ok := mi.X.Type().(*types.Named); ok && !resp2Kinds[n.Obj().Name()] {
+								bad = append(bad, n.Obj().Name())
+							}
+						}
+					}
+				}
 			default:
 				// pass-through of the switched value: every predecessor edge must be a RESP2-kind case
 				okPass := true
